@@ -94,6 +94,17 @@ def lys_variant(lys, variant):
 
 def lys_items(case, lys):
     """The docked lysine: common, or (second varying residue) one full copy per (tag, variant) of case['lys']."""
+    if case.get('partner') == 'same-type-twin':
+        # the partner is an aspartate of the SAME chain that carries the number of the varying residue plus an insertion code
+        # (2A; its caps 1A and 3A), docked carboxylate to carboxylate: same printed label as the varying residue
+        pre, mid, post, _ = base_parts()
+        asp = gen.kind_struct('ASP', 'A', 2)
+        asp = gen.dock(gen.S(pre + mid + post), [a for a in mid if a.name == 'OD2'][0], asp, gen.kind_atom('ASP', asp), 3.4)
+        out = [a.clone() for a in asp.atoms]
+        centre = [a.resnum for a in out if a.resname == 'ASP'][0]
+        for a in out:
+            a.resnum, a.icode = a.resnum - centre + 2, 'A'
+        return out
     if not case.get('lys'):
         return [a.clone() for a in lys]
     out = []
@@ -447,6 +458,11 @@ def layouts(tier):
             if max(lys_in) <= max(nums):
                 for vs in itertools.product(('ASP', 'ASPs'), repeat=len(nums)):
                     cases.append(dict(kind='model', layout=list(zip(nums, vs)), lys_in=list(lys_in)))
+    # an aspartate of the same chain with the same number and an insertion code docked to the varying residue (same printed label)
+    for tags in (('A', 'B'), ('A', 'B', 'C')):
+        for vs in itertools.product(('ASP', 'ASPs', 'ALA'), repeat=len(tags)):
+            if 'ALA' in vs and len(set(vs)) > 1:
+                cases.append(dict(kind='alt', layout=list(zip(tags, vs)), partner='same-type-twin'))
     # a chain that exists in some models only and holds nothing but an ion or one free amino acid
     for solo in ('CA', 'GLU'):
         for solo_in in ((2,), (1,), (1, 2), (2, 3)):
